@@ -445,3 +445,41 @@ Definition vpmap_init (spec : option str) (file : option str) (nb R sing : Z) : 
       else if 1 <=? n then Crash                        (* parsec_vpmap[0].cpuset = ... through NULL *)
       else Map n (n * p) []
   end.
+
+(* ---- from the map to cores: parsec.c, parsec_find_core_by_idx /
+   parsec_select_vpmap_thread_core / parsec_apply_vpmap_thread_locations ------
+   The indexes of the VP map are relative to the cpuset the process is allowed
+   to use ([allowed]: its cores in increasing order, context->cpuset_allowed_mask);
+   parsec_hwloc_nb_real_cores() is the number of cores in that set. *)
+(* the idx-th allowed core, -1 past the end; a negative index names a physical core *)
+Definition find_core_by_idx (allowed : list Z) (idx : Z) : Z :=
+  if idx <? 0 then - idx else nth (Z.to_nat idx) allowed (-1).
+Definition zmem (x : Z) (l : list Z) : bool := existsb (Z.eqb x) l.
+(* first allowed candidate that is not used yet, else the first allowed candidate, else -1 *)
+Fixpoint select_core (allowed used cands : list Z) (first : Z) : Z :=
+  match cands with
+  | [] => first
+  | w :: t =>
+      let c := find_core_by_idx allowed w in
+      if c <? 0 then select_core allowed used t first
+      else if negb (zmem c used) then c
+      else select_core allowed used t (if first <? 0 then c else first)
+  end.
+(* candidates of a thread in increasing order (an infinite mask is cut at R: past it no index has a core) *)
+Definition thread_cands (R : Z) (t : thread) : list Z :=
+  match t_set t with Fin l => l | Full => zseq 0 (Z.to_nat R) | Null => [] end.
+Fixpoint apply_locations (allowed used : list Z) (R : Z) (ths : list thread) : list Z :=
+  match ths with
+  | [] => []
+  | t :: r => let c := select_core allowed used (thread_cands R t) (-1) in
+              c :: apply_locations allowed (if c <? 0 then used else c :: used) R r
+  end.
+(* parsec_init: nb_cores <= 0 or above the number of cores means all of them *)
+Definition init_nb (R nb : Z) : Z := if nb <=? 0 then R else Z.min nb R.
+(* the default (flat) map of a process restricted to [allowed]: the core every thread is bound to *)
+Definition user_flat_bindings (allowed : list Z) (sing nb : Z) : option (list Z) :=
+  let R := Z.of_nat (length allowed) in
+  match flat R sing (init_nb R nb) with
+  | Map _ _ [ths] => Some (apply_locations allowed [] R ths)
+  | _ => None
+  end.
